@@ -317,37 +317,7 @@ func callEdge(want bool, idx int, argOK func(call *ssa.Call) bool, names ...stri
 // reachAvoid reports whether target is reachable from `from` without traversing a guard edge.
 // If reachable, it also returns one such path (block indices) as a witness.
 func reachAvoid(from, target *ssa.BasicBlock, guard EdgePred) (bool, []*ssa.BasicBlock) {
-	if from == target {
-		return true, []*ssa.BasicBlock{from}
-	}
-	prev := map[*ssa.BasicBlock]*ssa.BasicBlock{from: nil}
-	queue := []*ssa.BasicBlock{from}
-	for len(queue) > 0 {
-		b := queue[0]
-		queue = queue[1:]
-		var iff *ssa.If
-		if n := len(b.Instrs); n > 0 {
-			iff, _ = b.Instrs[n-1].(*ssa.If)
-		}
-		for i, s := range b.Succs {
-			if iff != nil && guard != nil && guard(iff, i) {
-				continue
-			}
-			if _, seen := prev[s]; seen {
-				continue
-			}
-			prev[s] = b
-			if s == target {
-				var path []*ssa.BasicBlock
-				for x := s; x != nil; x = prev[x] {
-					path = append([]*ssa.BasicBlock{x}, path...)
-				}
-				return true, path
-			}
-			queue = append(queue, s)
-		}
-	}
-	return false, nil
+	return reachAvoid2(from, target, guard, nil)
 }
 
 // mustPass: every path from function entry to instr's block traverses a guard edge.
@@ -429,33 +399,14 @@ func alwaysPrecededBy(b ssa.Instruction, as []ssa.Instruction) (bool, []string) 
 	if cut[fn.Blocks[0]] {
 		return true, nil
 	}
-	// BFS avoiding cut blocks
-	prev := map[*ssa.BasicBlock]*ssa.BasicBlock{fn.Blocks[0]: nil}
-	queue := []*ssa.BasicBlock{fn.Blocks[0]}
+	// walk avoiding cut blocks (edge-threaded, see thread.go)
 	target := b.Block()
 	if target == fn.Blocks[0] {
 		return false, pathWitness(fn, []*ssa.BasicBlock{target})
 	}
-	for len(queue) > 0 {
-		x := queue[0]
-		queue = queue[1:]
-		for _, s := range x.Succs {
-			if _, seen := prev[s]; seen {
-				continue
-			}
-			prev[s] = x
-			if s == target {
-				var path []*ssa.BasicBlock
-				for y := s; y != nil; y = prev[y] {
-					path = append([]*ssa.BasicBlock{y}, path...)
-				}
-				return false, pathWitness(fn, path)
-			}
-			if cut[s] {
-				continue
-			}
-			queue = append(queue, s)
-		}
+	reach, path := reachAvoid2(fn.Blocks[0], target, nil, cut)
+	if reach {
+		return false, pathWitness(fn, path)
 	}
 	return true, nil
 }
